@@ -92,6 +92,7 @@ def run(ck):
                         else:
                             ck.ob('C06.order', f'{label0} how={how} order={list(perm)}', sig == base[1], key=f'collect_results_{how}:order-dependent',
                                   what=f'{label0} how={how}: the collected outcome for yield order {list(perm)} differs from order {list(base[0])}')
+    synthetic_identity(ck, collect)
     ck.floor('C06.rows', 100)
 
 
@@ -176,3 +177,58 @@ def check_collected(ck, label, how, res, table, contexts, expected, tname):
                             bad.append(row)
                 ck.ob('C06.axes', f'{label} {key} .{fld}', not bad, key=f'collect_results_list:{fld}-not-source',
                       what=f'{label} {key}: collected .{fld} differs from the source on covered rows {bad}: {show_els(v) if isinstance(v, Vec) else v}')
+
+
+def synthetic_identity(ck, collect):
+    """results that differ only in stream id, only in module, or only in test name must stay separate"""
+    from ..vec import El
+    it = ck.runner.interp
+    rm = it.module('ioos_qc.results').globals
+    CallResult, ContextResult = rm['CallResult'], rm['ContextResult']
+
+    def vec(vals, dtype='u1', kind='ma'):
+        return Vec.fresh([El(X.num(v), False) for v in vals], kind=kind, dtype=dtype)
+
+    def ctx(stream, triples, mask):
+        crs = [it.instantiate(CallResult, [], dict(package=p, test=tname, function=None, results=vec(flags)), None) for p, tname, flags in triples]
+        n = sum(mask)
+        return it.instantiate(ContextResult, [], dict(
+            stream_id=stream, results=crs, subset_indexes=Vec.fresh([El(X.TRUE if m else X.FALSE, False) for m in mask], kind='nd', dtype='b1'),
+            data=vec([7] * n, 'f8', 'nd'), tinp=vec(list(range(n)), 'f8', 'nd'), zinp=vec([1] * n, 'f8', 'nd'), lat=vec([2] * n, 'f8', 'nd'),
+            lon=vec([3] * n, 'f8', 'nd')), None)
+    mask1, mask2 = [True, True, False], [False, False, True]
+    scen = [
+        ctx('s1', [('qartod', 't', [1, 3]), ('argo', 't', [4, 4]), ('qartod', 'u', [9, 9])], mask1),
+        ctx('s2', [('qartod', 't', [3, 1])], mask1),
+        ctx('s1', [('qartod', 't', [4]), ('argo', 't', [1])], mask2),
+    ]
+    want = {('s1', 'qartod', 't'): ['1', '3', '4'], ('s1', 'argo', 't'): ['4', '4', '1'], ('s1', 'qartod', 'u'): ['9', '9', None],
+            ('s2', 'qartod', 't'): ['3', '1', None]}
+    for how in ('list', 'dict'):
+        for order in ([0, 1, 2], [2, 1, 0], [1, 2, 0]):
+            label = f'synthetic identity how={how} order={order}'
+            try:
+                res = it.call(collect, [[scen[i] for i in order]], dict(how=how), None)
+            except AbsRaise as e:
+                ck.violate('C06.identity', f'collect_results_{how}:synthetic-raises', f'{label}: raises {e.exc}')
+                continue
+            got = {}
+            if how == 'list':
+                for cr in res:
+                    got[(cr.attrs['stream_id'], cr.attrs['package'], cr.attrs['test'])] = cr.attrs['results']
+            else:
+                for sid, mods in res.items():
+                    for mod, tests in mods.items():
+                        for tname, v in tests.items():
+                            got[(sid, mod, tname)] = v
+            ok = set(got) == set(want)
+            if ok:
+                for k, w in want.items():
+                    els = got[k].els()
+                    for i, x in enumerate(w):
+                        if x is None:
+                            ok = ok and ((els[i].m is True) if how == 'list' else (els[i].d == X.num(2) and els[i].m is False))
+                        else:
+                            ok = ok and els[i].m is False and X.show(els[i].d) == x
+            ck.ob('C06.identity', label, ok, key=f'collect_results_{how}:identity-stream-module-test',
+                  what=f'{label}: results that differ only in stream id / module / test name are merged or misplaced: {sorted(got)}')
